@@ -15,8 +15,34 @@ import sys
 import threading
 import time
 
-_state = {"on": False, "participants": set(), "rng": None, "p": 0.0, "yields": 0, "lines": 0, "lock": threading.Lock(), "installed": None, "maxsleep": 0.0002}
+_state = {"on": False, "participants": set(), "rng": None, "p": 0.0, "yields": 0, "lines": 0, "hot": 0, "lock": threading.Lock(), "installed": None, "maxsleep": 0.0002}
 TOOL = None
+
+
+_HOT = {}
+_STORE = None
+
+
+def _hot_lines(code):
+    """line numbers of a code object that directly follow a line assigning to self.<attr> (or self.<attr>[...])"""
+    global _STORE
+    h = _HOT.get(code)
+    if h is None:
+        import linecache
+        import re
+        if _STORE is None:
+            _STORE = re.compile(r"^\s*self\.[A-Za-z_][\w\.]*(\[[^\]]*\])?\s*=[^=]")
+        h = set()
+        try:
+            lines = linecache.getlines(code.co_filename)
+            last = max([code.co_firstlineno] + [l for (_, _, l) in code.co_lines() if l])
+            for ln in range(code.co_firstlineno, min(last, len(lines)) + 1):
+                if _STORE.match(lines[ln - 1]):
+                    h.add(ln + 1)
+        except Exception:
+            pass
+        _HOT[code] = h
+    return h
 
 
 def _install():
@@ -37,6 +63,14 @@ def _install():
             with _state["lock"]:
                 r = _state["rng"].random()
                 d = _state["rng"].random() * _state["maxsleep"]
+            # right after a store to an attribute of self (or to an item of one) is where multi-step updates of shared objects are half done:
+            # yield there far more often than elsewhere
+            if line in _hot_lines(code):
+                _state["hot"] += 1
+                if r < max(_state["p"], 0.5):
+                    _state["yields"] += 1
+                    time.sleep(d * 2)
+                return None
             if r < _state["p"]:
                 _state["yields"] += 1
                 time.sleep(d)
@@ -59,6 +93,7 @@ def run_threads(funcs, seed, p=0.2, timeout=120, maxsleep=0.0002):
     _state["maxsleep"] = maxsleep
     _state["yields"] = 0
     _state["lines"] = 0
+    _state["hot"] = 0
     start = threading.Barrier(len(funcs))
 
     def work(i, f):
@@ -91,4 +126,26 @@ def run_threads(funcs, seed, p=0.2, timeout=120, maxsleep=0.0002):
         sys.setswitchinterval(old)
     for i in hung:
         errors[i] = TimeoutError("thread %d still running after %ds" % (i, timeout))
-    return results, errors, {"yields_injected": _state["yields"], "lines_seen": _state["lines"], "monitor": how, "threads_hung": len(hung)}
+    return results, errors, {"yields_injected": _state["yields"], "lines_seen": _state["lines"], "lines_after_attribute_store": _state["hot"], "monitor": how, "threads_hung": len(hung)}
+
+
+REGIMES = ((0.05, 0.0002), (0.3, 0.0005), (0.02, 0.004))
+
+
+def run_threads_regimes(funcs, seed, timeout=120, regimes=REGIMES):
+    """run_threads once per injection regime (probability of a yield at a line start, longest sleep): rare short yields, frequent ones, and
+    rare long ones that let another thread finish a whole step inside the window.  Which regime opens a given race window depends on how
+    long the steps around it take (interpreter flags, logging, load), so none of them alone is reliable.  Returns the results of the last
+    regime, per thread the first error of any regime, and summed statistics."""
+    errors = [None] * len(funcs)
+    total = {"yields_injected": 0, "lines_seen": 0, "threads_hung": 0, "monitor": None, "regimes": len(regimes)}
+    results = None
+    for i, (p, ms) in enumerate(regimes):
+        results, errs, st = run_threads(funcs, "%s/regime%d" % (seed, i), p=p, timeout=timeout, maxsleep=ms)
+        for j, e in enumerate(errs):
+            if errors[j] is None:
+                errors[j] = e
+        for k in ("yields_injected", "lines_seen", "threads_hung"):
+            total[k] += st[k]
+        total["monitor"] = st["monitor"]
+    return results, errors, total
